@@ -23,6 +23,10 @@ func vhOffer(sel, k int) (any, bool) {
 // (0 none, 1 SetNoNesting(b) before the push), firstIsStack
 func VH_C13_Push(p []int) {
 	n, m := p[0], p[1]
+	// zero and nil values of the alias types met before have no say afterwards
+	warm := List().Push(vhAliasStack{}, (*vhAliasStack)(nil), vhAliasStackS{})
+	_ = warm.IsNesting()
+	ConvertStack((*vhAliasStack)(nil))
 	vhPreMode = 2
 	// with and without a capacity: a refused Stack must not use up room
 	pre := vhArbitraryStack(n, 0, false, vhOptMask&^ronly, 2, m+1)
@@ -58,7 +62,12 @@ func VH_C13_Push(p []int) {
 			}
 		}
 	}
+	offered := vhCopy(vals)
 	s.Push(vals...)
+	// the batch is the caller's: it is read, never rearranged
+	for k := range vals {
+		verifAssert(vhSameElem(vals[k], offered[k]) || (vals[k] == nil && offered[k] == nil), "batch-unchanged")
+	}
 	vhInv(s, cfg, "inv")
 	vhAssertElems(s, model, "stored")
 	verifAssert(s.IsNesting() == nesting, "IsNesting-after")
